@@ -18,6 +18,48 @@ pub fn cfg_g4() -> FamCfg {
     FamCfg { n: 4, ring_k: 4, ls_k: 3, mpt_m: 2, mls: 2, mpg: false, pgh: false, gc: false, stride: 2, mls_stride: 12, mpg_stride: 40, mls3_stride: 1 }
 }
 
+/// does the DE-9IM string match the pattern (T = non-empty, F = empty, * = anything, 0/1/2 exact)?
+fn mask(m: &str, pat: &str) -> bool {
+    m.bytes().zip(pat.bytes()).all(|(c, p)| match p {
+        b'*' => true,
+        b'T' => c != b'F',
+        x => c == x,
+    })
+}
+fn named_predicates(acc: &mut Acc, idx: usize, truth: &str, da: i32, db: i32) {
+    use std::str::FromStr;
+    let im = match geo::relate::IntersectionMatrix::from_str(truth) {
+        Ok(x) => x,
+        Err(e) => {
+            acc.viol("IntersectionMatrix::from_str rejects a valid matrix".into(), idx, || json!({"matrix": truth, "error": format!("{:?}", e)}));
+            return;
+        }
+    };
+    let any = |pats: &[&str]| pats.iter().any(|p| mask(truth, p));
+    let crosses = if da < db { mask(truth, "T*T******") } else if da > db { mask(truth, "T*****T**") } else if da == 1 { mask(truth, "0********") } else { false };
+    let overlaps = if da != db { false } else if da == 1 { mask(truth, "1*T***T**") } else { mask(truth, "T*T***T**") };
+    let checks: [(&str, bool, bool); 12] = [
+        ("is_disjoint", im.is_disjoint(), mask(truth, "FF*FF****")),
+        ("is_intersects", im.is_intersects(), !mask(truth, "FF*FF****")),
+        ("is_within", im.is_within(), mask(truth, "T*F**F***")),
+        ("is_contains", im.is_contains(), mask(truth, "T*****FF*")),
+        ("is_equal_topo", im.is_equal_topo(), mask(truth, "T*F**FFF*")),
+        ("is_coveredby", im.is_coveredby(), any(&["T*F**F***", "*TF**F***", "**FT*F***", "**F*TF***"])),
+        ("is_covers", im.is_covers(), any(&["T*****FF*", "*T****FF*", "***T**FF*", "****T*FF*"])),
+        ("is_touches", im.is_touches(), any(&["FT*******", "F**T*****", "F***T****"])),
+        ("is_crosses", im.is_crosses(), crosses),
+        ("is_overlaps", im.is_overlaps(), overlaps),
+        ("matches(self)", im.matches(truth).unwrap_or(false), true),
+        ("Debug round trip", format!("{:?}", im) == format!("IntersectionMatrix({})", truth), true),
+    ];
+    for (name, got, want) in checks {
+        acc.evals += 1;
+        if got != want {
+            acc.viol(format!("IntersectionMatrix::{} disagrees with its documented mask (operand dimensions {} x {})", name, da, db), idx, || json!({"matrix": truth, "expected": want, "got": got}));
+        }
+    }
+}
+
 pub fn run(mut run: Run) -> i32 {
     let shapes = families(&cfg(&run.ctx));
     let n = shapes.len();
@@ -48,6 +90,9 @@ pub fn run(mut run: Run) -> i32 {
         let truth = mstr(&de9im(&a.ag, &b.ag));
         acc.class(format!("{}x{}:{}", a.ty(), b.ty(), truth));
         acc.sample(idx, || json!({"a": a.wkt(), "b": b.wkt(), "true_matrix": truth}));
+        // the named predicates of IntersectionMatrix, evaluated on the TRUE matrix, against their documented masks (the operand dimensions come from
+        // the abstract description, not from the matrix)
+        named_predicates(acc, idx, &truth, a.ag.dim(), b.ag.dim());
         for (how, got) in [
             ("concrete", guard(|| relate_concrete(&a.g, &b.g))),
             ("enum", guard(|| relate_enum(&a.g, &b.g))),
